@@ -101,6 +101,14 @@ CHECKS = {
             "learned closer peers, exactly-once partial results/providers, no request after the quorum is met.",
             "Timeout family uses real sleeps with one-sided (sound) freshness margins.",
             "DESIGN.md §3 C15"),
+    "C16": ("fault_enumeration",
+            "operation ledger over real Litep2p nodes on loopback: every Kademlia operation gets exactly one terminal event within a bounded window under enumerated peer placements and injected faults",
+            "Real nodes with Kademlia on loopback TCP; the routing table of the node under test holds peers that are healthy, have only undialable addresses, refuse the port, "
+            "blackhole the connection, reset after n bytes (fault proxy) or accept substreams and stay silent; with and without connection limits. Every find_node/get_record/"
+            "put_record/put_record_to_peers/get_providers/start_providing call is entered in a ledger by QueryId; the event stream must end each one exactly once, with an event "
+            "of the right kind, successes only with the requested quorum, within a window derived from the configured timeouts (bounded progress; lag canary makes a starved run inconclusive).",
+            "Unbounded 'eventually' is restated as 'within 106 s of wall time with an idle canary'.",
+            "DESIGN.md §3 C16"),
     "C17": ("exploration",
             "invariants on MemoryStore dumps + reference store comparison on random operation histories over the full configuration grid (short real sleeps cross expiries)",
             "Histories of put/get/put_provider/get_providers/local-provider operations with colliding keys under all bound configurations (0/1/small); after every "
